@@ -13,6 +13,11 @@
 (*                 WorkerDone                                              *)
 (*   environment   PeerClose, PeerReset (also in the middle of a socket     *)
 (*                 write, see Push), ListenerDown, ListenerUp              *)
+(*   configuration Reconfig: between sends the default license, the queue  *)
+(*                 capacity and the server list change, by assignment to   *)
+(*                 the exported fields or through ApplyConfig (which drops *)
+(*                 the connection and re-dials when license or servers     *)
+(*                 changed)                                                *)
 (*                                                                         *)
 (* A frame is two units: k=1 "a non-empty proper prefix of the frame" and  *)
 (* k=2 "the rest", so that the middle of a frame exists.  A unit carries   *)
@@ -32,9 +37,10 @@
 EXTENDS Integers, Sequences, FiniteSets
 
 CONSTANTS Sender,      \* calling goroutines
-          MaxFaults    \* bound on environment faults (PeerClose/PeerReset/cut in a write/ListenerDown)
+          MaxFaults,   \* bound on environment faults (PeerClose/PeerReset/cut in a write/ListenerDown/servers pointed away)
+          MaxCfg       \* bound on configuration changes
 
-VARIABLES conf,      \* [queue: BOOLEAN, qcap: Nat, deflic: license]  -- never changes
+VARIABLES conf,      \* [queue: BOOLEAN, qcap: Int, deflic: license, srv: "here" | other, gen: Nat] -- changed only by Reconfig
           lock,      \* holder of the process-wide send lock
           pc,        \* per actor: where it is in its send
           cur,       \* per actor: the pack being sent
@@ -62,6 +68,7 @@ NoLic  == "-"
 NoPack == [id |-> 0]
 Worker == "W"
 Actor  == Sender \cup {Worker}
+Here   == "here"      \* conf.srv: the server list names the collector
 
 \* ------------------------------------------------------------------ frames
 EffLic(p) == IF p.lic = NoLic THEN conf.deflic ELSE p.lic
@@ -95,8 +102,10 @@ Push(c, data, d, ok, kind) ==
             ELSE UNCHANGED <<net, faults>>
 
 \* ------------------------------------------------------------ direct mode
+\* lics: the client's default licenses in effect between the acceptance of the send and the building of its frame
 Register(p) == reg' = [x \in DOMAIN reg \cup {p.id} |->
-                         IF x = p.id THEN [p |-> p, rank |-> Cardinality(DOMAIN reg) + 1] ELSE reg[x]]
+                         IF x = p.id THEN [p |-> p, rank |-> Cardinality(DOMAIN reg) + 1, lics |-> {conf.deflic}]
+                                     ELSE reg[x]]
 
 Call(s, p) ==
   /\ ~conf.queue /\ s \in Sender /\ pc[s] = "idle" /\ p.id \notin DOMAIN reg \cup {cur[a].id : a \in Actor}
@@ -123,7 +132,7 @@ CanDial(a) == \/ pc[a] = "built"
               \/ (a = Worker /\ pc[a] = "idle" /\ (conf.queue \/ lock = None))
 
 ConnectOk(a) ==
-  /\ CanDial(a) /\ conn = 0 /\ listener = "open"
+  /\ CanDial(a) /\ conn = 0 /\ listener = "open" /\ conf.srv = Here
   /\ nconn' = nconn + 1 /\ conn' = nconn + 1
   /\ net' = Append(net, "up") /\ wire' = Append(wire, <<>>)
   /\ wbuf' = <<>> /\ werr' = FALSE          \* a NEW writer: nothing of the old one survives
@@ -131,7 +140,7 @@ ConnectOk(a) ==
   /\ UNCHANGED <<conf, lock, pc, cur, fr, listener, queue, reg, okset, errset, res, faults>>
 
 ConnectFail(a) ==
-  /\ CanDial(a) /\ conn = 0 /\ listener = "refusing"
+  /\ CanDial(a) /\ conn = 0 /\ (listener = "refusing" \/ conf.srv # Here)
   /\ pc' = [pc EXCEPT ![a] = IF @ = "built" THEN "senderr" ELSE @]
   /\ streak' = 0
   /\ UNCHANGED <<conf, lock, cur, fr, conn, nconn, wbuf, werr, net, wire, listener, queue, reg, okset, errset, res, faults>>
@@ -262,6 +271,39 @@ ListenerUp ==
   /\ listener' = "open"
   /\ UNCHANGED <<conf, lock, pc, cur, fr, conn, nconn, wbuf, werr, net, wire, queue, reg, okset, errset, res, faults, streak>>
 
+\* ---------------------------------------------------------- configuration
+(* The configuration changes BETWEEN sends: `via` = "field" is an assignment *)
+(* to the exported fields (License, Servers, Queue.SetCapacity), "apply" is  *)
+(* ApplyConfig, which also drops the connection and dials again iff the      *)
+(* license or the server list changed (one step: no send is in progress, the *)
+(* writer holds nothing that was accepted and could still be delivered).     *)
+(* From this step on every frame built without a per-send license carries    *)
+(* the NEW default license, and the queue refuses by the NEW capacity.       *)
+(* Pointing the server list away from the collector is a fault of the        *)
+(* environment (nothing can be delivered while it lasts).                    *)
+Pending == {queue[i].id : i \in 1..Len(queue)} \cup {cur[a].id : a \in {b \in Actor : pc[b] = "locked"}}
+
+Reconfig(via, lic, qcap, srv, dialok) ==
+  LET redial == via = "apply" /\ (lic # conf.deflic \/ srv # conf.srv)
+      away   == srv # Here /\ conf.srv = Here IN
+  /\ via \in {"field", "apply"} /\ conf.gen < MaxCfg
+  /\ redial => /\ lock = None /\ pc[Worker] = "idle"
+               /\ (conn = 0 \/ wbuf = <<>> \/ werr)
+  /\ away => faults < MaxFaults
+  /\ conf' = [conf EXCEPT !.deflic = lic, !.qcap = qcap, !.srv = srv, !.gen = @ + 1]
+  /\ reg' = [x \in DOMAIN reg |-> IF x \in Pending THEN [reg[x] EXCEPT !.lics = @ \cup {lic}] ELSE reg[x]]
+  /\ faults' = IF away THEN faults + 1 ELSE faults
+  /\ IF ~redial THEN UNCHANGED <<conn, nconn, net, wire, wbuf, werr, streak>>
+     ELSE IF dialok
+       THEN /\ srv = Here /\ listener = "open"
+            /\ nconn' = nconn + 1 /\ conn' = nconn + 1
+            /\ net' = Append(net, "up") /\ wire' = Append(wire, <<>>)
+            /\ wbuf' = <<>> /\ werr' = FALSE /\ streak' = 0
+       ELSE /\ (srv # Here \/ listener = "refusing")
+            /\ conn' = 0 /\ streak' = 0
+            /\ UNCHANGED <<nconn, net, wire, wbuf, werr>>
+  /\ UNCHANGED <<lock, pc, cur, fr, listener, queue, okset, errset, res>>
+
 \* ------------------------------------------------------------------- Init
 InitWith(c) ==
   /\ conf = c
@@ -304,11 +346,16 @@ InOrderAtMostOnce ==
   /\ \A i \in 1..Len(Firsts) : Firsts[i].id \in DOMAIN reg
   /\ \A i \in 1..Len(Firsts) - 1 : reg[Firsts[i].id].rank < reg[Firsts[i+1].id].rank
 
-\* every frame carries the pcode of its pack, the license in effect for that send, and its payload
+\* every frame carries the pcode of its pack, the license in effect for that send (the per-send override, else a
+\* default license of the client that was in effect between the acceptance of the send and the building of its
+\* frame), and its payload
 HeaderRight ==
   \A c \in Conns : \A i \in 1..Len(wire[c]) :
-     /\ wire[c][i].id \in DOMAIN reg
-     /\ wire[c][i].h = Hdr(reg[wire[c][i].id].p)
+     LET u == wire[c][i] IN
+     /\ u.id \in DOMAIN reg
+     /\ LET r == reg[u.id] IN
+        /\ u.h.pcode = r.p.pcode /\ u.h.body = r.p.body
+        /\ u.h.lic \in (IF r.p.lic = NoLic THEN r.lics ELSE {r.p.lic})
 
 \* an error return means the frame did not arrive whole (so a retry cannot duplicate)
 ErrMeansNotDelivered == errset \cap WholeIds = {}
